@@ -8,7 +8,7 @@ import evo
 
 PROP = 'C08'
 THEOREMS = ['C08_promotions', 'C08_no_rule_is_error', 'C08_record_fields', 'C08_record_by_name', 'C08_enum_rules',
-            'C08_enum_spec', 'C08_idempotent_leaves', 'C08_narrowing_refuted', 'C08_alias_refuted', 'C08_map_as_record_refuted',
+            'C08_enum_spec', 'C08_idempotent_leaves', 'C08_idempotent_fragment', 'C08_result_validates_fragment', 'C08_fragment_example', 'C08_narrowing_refuted', 'C08_alias_refuted', 'C08_map_as_record_refuted',
             'C08_fixed_logical_by_kind_refuted', 'C08_named_by_structure_refuted', 'C08_logical_not_promoted_refuted',
             'C08_lookup_by_base_kind_refuted', 'C08_read_as_sibling_refuted', 'C08_spec_examples']
 RULE = ('(W, R) pairs from generated writer schemas by 1-3 evolution steps (promotions, add/remove/reorder/rename-'
